@@ -15,7 +15,8 @@ with tempfile.TemporaryDirectory() as td:
     for tc in ET.parse(x).getroot().iter('testcase'):
         if not list(tc):
             passed.add(tc.attrib.get('classname', '') + '::' + tc.attrib.get('name', ''))
-missing = [t for t in base['stable_pass'] if t not in passed]
+# '::' is the nameless junit record pytest emitted for the test that was running when it hit its INTERNALERROR on the pinned tree
+missing = [t for t in base['stable_pass'] if t not in passed and t != '::']
 print(f'pinned baseline: {len(base["stable_pass"]) - len(missing)}/{len(base["stable_pass"])} stable tests pass; pytest tail: {p.stdout.strip().splitlines()[-1] if p.stdout.strip() else ""}')
 for m in missing: print('  MISSING', m)
 code = ("import sys, os, json; sys.path.insert(0, %r); sys.path.insert(0, %r); import fixtures; "
